@@ -1,6 +1,7 @@
 import Lean.Data.Json
 import D2P.Model.Output
 import D2P.Spec.Skeleton
+import D2P.Spec.Runs
 import D2P.Model.Iterators
 import D2P.Model.Lifecycle
 import D2P.Check.C01
@@ -226,6 +227,40 @@ def handleMerged (j : Json) : Except String Json := do
     let cs := filesOfType files contentTypes
     pure (Json.mkObj (cs.map fun r => (String.ofList r.path, jM (fun cr => jXml cr.2) (rootElement o a files r))))
 
+mutual
+/-- the paragraphs of a tree, in document order -/
+partial def parsBelow : Xml → List Xml
+  | .elem i p t m a tx tl ks => (if (Xml.elem i p t m a tx tl ks).ptag == paragraphTag then [.elem i p t m a tx tl ks] else []) ++ parsBelowL ks
+  | _ => []
+partial def parsBelowL : List Xml → List Xml
+  | [] => []
+  | k :: ks => parsBelow k ++ parsBelowL ks
+end
+
+/-- `{"op":"runs", …package…}` (html off): for every paragraph of the main part that contains no
+paragraph, cell or note and is not a list item, the run strings and the comment ranges (relative to
+the paragraph's first string) that the run-string machine `runsOfL` prescribes -/
+def handleRuns (j : Json) : Except String Json := do
+  let a ← archiveOfJson j
+  let o : Opts := { html := false, dup := true }
+  match a.files with
+  | .error e => pure (Json.mkObj [("err", .str (errName e))])
+  | .ok files =>
+    match filesOfType files [lit "officeDocument"] with
+    | [] => pure (Json.mkObj [("err", .str "no main part")])
+    | r :: _ =>
+      match rootElement o a files r, partRels a files r, numId2Attrs a with
+      | .ok cr, .ok rels, .ok num =>
+        let cfg : PartCfg := { cr.1 with rels := rels }
+        let ps := (parsBelow cr.2).filter fun p => simpleL p.kids && (bulletFmt p).1.isNone
+        let out := ps.map fun p =>
+          let res := runsOfL cfg 0 (linksOf cfg num false) p.kids ⟨([], []), []⟩
+          Json.mkObj [("elem", match p.id? with | some i => toJson i | none => .null),
+            ("machine", jM (fun st => Json.mkObj [("strings", .arr (st.r.strings.map jStr).toArray),
+              ("ranges", .arr (st.ranges.map fun kv => Json.arr #[jStr kv.1, toJson kv.2.1, toJson kv.2.2]).toArray)]) res)]
+        pure (Json.mkObj [("ok", .arr out.toArray), ("path", jStr r.path)])
+      | _, _, _ => pure (Json.mkObj [("err", .str "main part cannot be read")])
+
 /-- `{"op":"replace","tree":…,"nsmaps":…,"old":"…","new":"…"}`: `replace_root_text(root, old, new)` -/
 def handleReplace (j : Json) : Except String Json := do
   let nsmaps ← nsmapsOfJson (← j.getObjVal? "nsmaps")
@@ -292,6 +327,7 @@ def handle (line : String) : Json :=
     | .ok "replace" => (match handleReplace j with | .ok r => r | .error e => Json.mkObj [("bad", .str e)])
     | .ok "lifecycle" => (match handleLifecycle j with | .ok r => r | .error e => Json.mkObj [("bad", .str e)])
     | .ok "save" => (match handleSave j with | .ok r => r | .error e => Json.mkObj [("bad", .str e)])
+    | .ok "runs" => (match handleRuns j with | .ok r => r | .error e => Json.mkObj [("bad", .str e)])
     | .ok "valid" => (match handleValid j with | .ok r => r | .error e => Json.mkObj [("bad", .str e)])
     | .ok "render" => (match handleRender j with | .ok r => r | .error e => Json.mkObj [("bad", .str e)])
     | _ => Json.mkObj [("bad", .str "unknown op")]
